@@ -61,3 +61,9 @@ Proof. intros []; reflexivity. Qed.
 Print Assumptions killed_evaluation_is_rejected_whoever_reaps.
 Example intolerant_reap_fails : reap_outcome false ReapedByCollector = AFailedToReap.
 Proof. reflexivity. Qed.
+
+(** the three arms of [evaluate]'s select, as [Cli.pstep] models them: the child's result as it is;
+    at the per-evaluation limit and on the abort request the group is killed and reaped and the
+    evaluation returns as rejected at once, whoever still holds the output pipes (shape
+    regenerated from the source) *)
+Example evaluate_arms_shape : evaluate_arms_kill_reap_return = true.  Proof. reflexivity. Qed.
